@@ -110,7 +110,7 @@ func (w *World) ruleKindNarrowing(r *Report, rule string) {
 			}
 		}
 	}
-	r.floor(rule, n, 4)
+	r.floor(rule, n, 2)
 }
 
 // ruleNoIntThroughFloat: on the decode path no integer wider than a float64
@@ -332,8 +332,42 @@ func (w *World) kindTables() (*kindTable, error) {
 				if sc == nil {
 					continue
 				}
+				targets := []*ssa.Function{sc}
+				// a helper extracted from the dispatch (writeGoInt, readStructField …): look inside it
+				if w.inPkg(sc) && sc.Blocks != nil {
+					isRole := false
+					for _, cd := range cs {
+						if sc == cd.EncW || sc == cd.Wrap {
+							isRole = true
+						}
+					}
+					if !isRole && sc != fn {
+						for g := range w.reachPkg(sc) {
+							if g != fn && g.Name() != "WriteData" && g.Name() != "ReadData" {
+								targets = append(targets, g)
+							}
+						}
+					}
+				}
 				for _, cd := range cs {
-					if (side == "enc" && sc == cd.EncW) || (side == "dec" && sc == cd.Wrap) {
+					if (side == "enc" && cd.EncW == nil) || (side == "dec" && cd.Wrap == nil) {
+						continue
+					}
+					hit := false
+					for _, tg := range targets {
+						if tg == sc {
+							if (side == "enc" && sc == cd.EncW) || (side == "dec" && sc == cd.Wrap) {
+								hit = true
+							}
+							if len(targets) == 1 {
+								continue
+							}
+						}
+						if (side == "enc" && callsStatic(tg, cd.EncW)) || (side == "dec" && callsStatic(tg, cd.Wrap)) {
+							hit = true
+						}
+					}
+					if hit {
 						for _, k := range ks {
 							if prev, ok := out[k]; ok && prev != cd.Name {
 								out[k] = prev + "|" + cd.Name
